@@ -24,7 +24,7 @@ type c13Case struct {
 	Critical bool    `json:"critical"`
 	Resv     bool    `json:"reserved_bits"`
 	InSK     bool    `json:"inside_sk"`
-	OuterSK  bool    `json:"before_sk"` // the insertion sits in the cleartext outer chain in front of the SK payload
+	OuterSK  bool    `json:"before_sk"`               // the insertion sits in the cleartext outer chain in front of the SK payload
 	CritImpl int     `json:"critical_on_implemented"` // -1 or index of an implemented payload carrying the critical flag
 }
 
